@@ -7,6 +7,10 @@ func TestC11_Exhaustive(t *testing.T) {
 	runEnumerated(t, "C11", "TestC11_Exhaustive", ruleC11Ex, len(cases), func(i int) *Case { return cases[i] })
 }
 
+func TestC11_Chained(t *testing.T) {
+	checkRapid(t, "C11", "TestC11_Chained", ruleC11Chain, drawC11Chain)
+}
+
 func TestC11_Random(t *testing.T) {
 	checkRapid(t, "C11", "TestC11_Random", ruleC11Rnd, drawC11)
 }
